@@ -5,18 +5,30 @@ From KV Require Import Base.Outcome C04.Transport.
 Import ListNotations.
 Local Open Scope Z_scope.
 
-(** ** the guard *)
-Definition wf_loop (N : Z) (lr : option (Z * Z)) : Prop :=
-  match lr with None => True | Some (ls, le) => 0 <= ls /\ ls < le /\ le <= N end.
-Definition wf_transport (N : Z) (t : transport) : Prop :=
-  0 <= t_pos t /\ (t_playing t = true -> t_pos t < N) /\ wf_loop N (t_loop t).
-(** a seek target is a [usize] below the iteration bound; a new loop region is well formed *)
-Definition wf_top (N : Z) (fuel : nat) (o : top) : Prop :=
+(** ** the invariant.  [B] bounds every quantity the transport can hold while playing: the
+    length, the start position, every loop end.  The property's own guard is the instance
+    [B = N]: start inside the sound, loop regions inside the sound. *)
+Definition wf_loop (B : Z) (lr : option (Z * Z)) : Prop :=
+  match lr with None => True | Some (ls, le) => 0 <= ls /\ ls < le /\ le <= B end.
+Definition wf_transport (B : Z) (t : transport) : Prop :=
+  0 <= t_pos t /\ (t_playing t = true -> t_pos t < B) /\ wf_loop B (t_loop t).
+(** a requested region is any pair of [usize] values not beyond the bound: empty and inverted
+    ones included (they are filtered out) *)
+Definition req_loop (B : Z) (lr : option (Z * Z)) : Prop :=
+  match lr with None => True | Some (ls, le) => 0 <= ls /\ le <= B end.
+(** a seek target is a [usize] below the iteration bound *)
+Definition wf_top (B : Z) (fuel : nat) (o : top) : Prop :=
   match o with
   | TSeek p => 0 <= p /\ p < Z.of_nat fuel
-  | TSetLoop lr => wf_loop N lr
+  | TSetLoop lr => req_loop B lr
   | _ => True
   end.
+
+Lemma filter_region_wf : forall B lr, req_loop B lr -> wf_loop B (filter_region lr).
+Proof.
+  intros B [[ls le]|] H; cbn [filter_region]; [|exact I].
+  destruct (Z.gtb_spec le ls); [|exact I]. cbn in *. lia.
+Qed.
 
 Lemma sub_chk_ok : forall a b, b <= a -> sub_chk a b = Ok (a - b).
 Proof. intros a b H. unfold sub_chk. destruct (Z.ltb_spec a b); [lia | reflexivity]. Qed.
@@ -88,13 +100,13 @@ Qed.
 (** ** one operation preserves the guard and neither panics nor hangs *)
 Section Safe.
   Variable fuel : nat.
-  Variable N : Z.
-  Hypothesis HN : 0 <= N.
-  Hypothesis HNmax : N < u64_max.
-  Hypothesis Hfuel : N < Z.of_nat fuel.
+  Variables N B : Z.
+  Hypothesis HNB : N <= B.
+  Hypothesis HBmax : B < u64_max.
+  Hypothesis Hfuel : B < Z.of_nat fuel.
 
-  Lemma increment_safe : forall t, wf_transport N t ->
-    exists t', increment_position fuel t N = Ok t' /\ wf_transport N t' /\ t_loop t' = t_loop t.
+  Lemma increment_safe : forall t, wf_transport B t ->
+    exists t', increment_position fuel t N = Ok t' /\ wf_transport B t' /\ t_loop t' = t_loop t.
   Proof.
     intros [p lr pl] (Hp & Hpl & Hlr). cbn [t_pos t_loop t_playing] in *.
     unfold increment_position. cbn [t_pos t_loop t_playing].
@@ -113,18 +125,18 @@ Section Safe.
       all: try (destruct (Z.geb_spec (p + 1) N); [discriminate | lia]).
   Qed.
 
-  Lemma decrement_safe : forall t, wf_transport N t ->
-    exists t', decrement_position fuel t = Ok t' /\ wf_transport N t' /\ t_loop t' = t_loop t.
+  Lemma decrement_safe : forall t, wf_transport B t ->
+    exists t', decrement_position fuel t = Ok t' /\ wf_transport B t' /\ t_loop t' = t_loop t.
   Proof.
     intros [p lr pl] (Hp & Hpl & Hlr). cbn [t_pos t_loop t_playing] in *.
     unfold decrement_position. cbn [t_pos t_loop t_playing].
     destruct pl; cbn [negb].
     2:{ eexists; split; [reflexivity|]. split; [|reflexivity]. repeat split; cbn; auto; try discriminate. }
     specialize (Hpl eq_refl).
-    assert (Hgen : forall q, 0 <= q -> q <= N ->
+    assert (Hgen : forall q, 0 <= q -> q <= B ->
       exists t', (if q =? 0 then Ok {| t_pos := q; t_loop := lr; t_playing := false |}
                   else Ok {| t_pos := q - 1; t_loop := lr; t_playing := true |}) = Ok t' /\
-                 wf_transport N t' /\ t_loop t' = lr).
+                 wf_transport B t' /\ t_loop t' = lr).
     { intros q Hq0 HqN. destruct (Z.eqb_spec q 0).
       - eexists; split; [reflexivity|]. split; [|reflexivity]. repeat split; cbn; try lia; auto; try discriminate.
       - eexists; split; [reflexivity|]. split; [|reflexivity]. repeat split; cbn; try lia; auto. }
@@ -136,14 +148,14 @@ Section Safe.
     - cbn [obind]. apply Hgen; lia.
   Qed.
 
-  Lemma seek_safe : forall t i, wf_transport N t -> 0 <= i -> i < Z.of_nat fuel ->
-    exists t', transport_seek_to fuel t i N = Ok t' /\ wf_transport N t' /\ t_loop t' = t_loop t.
+  Lemma seek_safe : forall t i, wf_transport B t -> 0 <= i -> i < Z.of_nat fuel ->
+    exists t', transport_seek_to fuel t i N = Ok t' /\ wf_transport B t' /\ t_loop t' = t_loop t.
   Proof.
     intros [p lr pl] i (Hp & Hpl & Hlr) Hi Hif. cbn [t_pos t_loop t_playing] in *.
     unfold transport_seek_to. cbn [t_pos t_loop t_playing].
     assert (Hgen : forall q, 0 <= q ->
       exists t', Ok {| t_pos := q; t_loop := lr; t_playing := if q >=? N then false else pl |} = Ok t' /\
-                 wf_transport N t' /\ t_loop t' = lr).
+                 wf_transport B t' /\ t_loop t' = lr).
     { intros q Hq0. eexists; split; [reflexivity|]. split; [|reflexivity].
       repeat split; cbn [t_pos t_loop t_playing]; try lia; auto.
       all: try (destruct (Z.geb_spec q N); [discriminate | lia]). }
@@ -156,19 +168,20 @@ Section Safe.
     - cbn [obind]. apply Hgen; lia.
   Qed.
 
-  Lemma tstep_safe : forall t o, wf_transport N t -> wf_top N fuel o ->
-    exists t', tstep fuel N t o = Ok t' /\ wf_transport N t'.
+  Lemma tstep_safe : forall t o, wf_transport B t -> wf_top B fuel o ->
+    exists t', tstep fuel N t o = Ok t' /\ wf_transport B t'.
   Proof.
     intros t o Ht Ho. destruct o as [| |i|lr]; cbn [tstep].
     - destruct (increment_safe t Ht) as (t' & H1 & H2 & _); eauto.
     - destruct (decrement_safe t Ht) as (t' & H1 & H2 & _); eauto.
     - destruct Ho as [Hi Hf]. destruct (seek_safe t i Ht Hi Hf) as (t' & H1 & H2 & _); eauto.
     - eexists; split; [reflexivity|]. destruct Ht as (H1 & H2 & H3).
-      repeat split; cbn [transport_set_loop_region t_pos t_loop t_playing]; auto.
+      split; [exact H1|]. split; [exact H2|]. cbn [transport_set_loop_region t_loop].
+      apply filter_region_wf. exact Ho.
   Qed.
 
-  Lemma trun_safe : forall ops t, wf_transport N t -> Forall (wf_top N fuel) ops ->
-    exists t', trun fuel N t ops = Ok t' /\ wf_transport N t'.
+  Lemma trun_safe : forall ops t, wf_transport B t -> Forall (wf_top B fuel) ops ->
+    exists t', trun fuel N t ops = Ok t' /\ wf_transport B t'.
   Proof.
     induction ops as [|o ops IH]; intros t Ht Hops.
     - exists t; split; [reflexivity | assumption].
@@ -177,91 +190,56 @@ Section Safe.
   Qed.
 End Safe.
 
-(** [Transport::new] under the guard *)
-Lemma transport_new_safe : forall start lr reverse N,
-  0 <= start -> start < N -> wf_loop N lr ->
-  exists t, transport_new start lr reverse N = Ok t /\ wf_transport N t /\
-            t_pos t = (if reverse then N - 1 - start else start) /\ t_loop t = lr /\ t_playing t = true.
+(** [Transport::new]: any start position below the bound, any requested region *)
+Lemma transport_new_safe : forall start lr reverse N B,
+  0 <= start -> start < B -> req_loop B lr ->
+  wf_transport B (transport_new start lr reverse N) /\
+  t_loop (transport_new start lr reverse N) = filter_region lr /\
+  (start < N ->
+     t_pos (transport_new start lr reverse N) = (if reverse then N - 1 - start else start) /\
+     t_playing (transport_new start lr reverse N) = true) /\
+  (reverse = true -> N <= start ->
+     t_pos (transport_new start lr reverse N) = 0 /\ t_playing (transport_new start lr reverse N) = false).
 Proof.
-  intros start lr reverse N H0 H1 Hlr. unfold transport_new. destruct reverse.
-  - rewrite (sub_chk_ok N 1) by lia. cbn [obind]. rewrite sub_chk_ok by lia. cbn [obind].
-    eexists; split; [reflexivity|]. repeat split; cbn; auto; lia.
-  - cbn [obind]. eexists; split; [reflexivity|]. repeat split; cbn; auto; lia.
+  intros start lr reverse N B H0 H1 Hlr. pose proof (filter_region_wf B lr Hlr) as Hf.
+  unfold transport_new. destruct reverse.
+  - destruct (Z.leb_spec 1 N); destruct (Z.leb_spec start (N - 1)); cbn [andb t_pos t_loop t_playing];
+      (split; [repeat split; cbn [t_pos t_loop t_playing]; try assumption; try lia; try discriminate|]);
+      (split; [reflexivity|]); split; intros; try lia; try (split; reflexivity); try discriminate.
+  - cbn [t_pos t_loop t_playing].
+    split; [repeat split; cbn [t_pos t_loop t_playing]; try assumption; try lia|].
+    split; [reflexivity|]. split; [intros; split; reflexivity | discriminate].
 Qed.
 
 Lemma transport_safe_all :
-  forall (fuel : nat) (N start : Z) (lr : option (Z * Z)) (reverse : bool) (ops : list top),
-    0 <= start -> start < N -> N < u64_max -> N < Z.of_nat fuel -> wf_loop N lr ->
-    Forall (wf_top N fuel) ops ->
-    exists t t', transport_new start lr reverse N = Ok t /\ trun fuel N t ops = Ok t' /\
-                 0 <= t_pos t' /\ (t_playing t' = true -> t_pos t' < N) /\ wf_loop N (t_loop t').
+  forall (fuel : nat) (N B start : Z) (lr : option (Z * Z)) (reverse : bool) (ops : list top),
+    0 <= start -> start < B -> N <= B -> B < u64_max -> B < Z.of_nat fuel -> req_loop B lr ->
+    Forall (wf_top B fuel) ops ->
+    exists t', trun fuel N (transport_new start lr reverse N) ops = Ok t' /\
+               0 <= t_pos t' /\ (t_playing t' = true -> t_pos t' < B) /\ wf_loop B (t_loop t').
 Proof.
-  intros fuel N start lr reverse ops H0 H1 H2 H3 H4 H5.
-  destruct (transport_new_safe start lr reverse N H0 H1 H4) as (t & Ht & Hwf & _).
-  destruct (trun_safe fuel N H2 H3 ops t Hwf H5) as (t' & Ht' & Hwf').
-  exists t, t'. split; [exact Ht|]. split; [exact Ht'|]. exact Hwf'.
+  intros fuel N B start lr reverse ops H0 H1 H2 H3 H4 H5 H6.
+  destruct (transport_new_safe start lr reverse N B H0 H1 H5) as (Hwf & _).
+  destruct (trun_safe fuel N B H2 H3 H4 ops _ Hwf H6) as (t' & Ht' & Hwf').
+  exists t'. split; [exact Ht'|]. exact Hwf'.
 Qed.
 
-(** ** refutations: what happens outside each clause of the guard *)
+(** ** what the repaired code does with the requests that used to hang or panic *)
+Lemma filter_region_empty : forall ls le, le <= ls -> filter_region (Some (ls, le)) = None.
+Proof. intros ls le H. cbn [filter_region]. destruct (Z.gtb_spec le ls); [lia | reflexivity]. Qed.
+Lemma filter_region_keeps : forall ls le, ls < le -> filter_region (Some (ls, le)) = Some (ls, le).
+Proof. intros ls le H. cbn [filter_region]. destruct (Z.gtb_spec le ls); [reflexivity | lia]. Qed.
 
-(** empty loop region ([end = start]): the wrap loop never ends, whatever the bound *)
+(** the loops themselves still do not terminate on an empty region and underflow on an inverted
+    one: the filter is what keeps such regions out of the transport *)
 Lemma wrap_down_empty_hangs : forall fuel p ls, 0 <= p -> ls <= p -> wrap_down fuel p ls ls = Hang.
 Proof.
   induction fuel as [|f IH]; intros p ls H0 H; [reflexivity|]. cbn [wrap_down].
   destruct (Z.geb_spec p ls); [|lia]. rewrite sub_chk_ok by lia. cbn [obind].
   rewrite sub_chk_ok by lia. cbn [obind]. replace (p - (ls - ls)) with p by lia. apply IH; assumption.
 Qed.
-Lemma wrap_up_le_empty_hangs : forall fuel p ls, 0 <= p -> p <= ls -> ls <= u64_max -> wrap_up_le fuel p ls ls = Hang.
-Proof.
-  induction fuel as [|f IH]; intros p ls H0 H Hm; [reflexivity|]. cbn [wrap_up_le].
-  destruct (Z.leb_spec p ls); [|lia]. rewrite sub_chk_ok by lia. cbn [obind].
-  rewrite add_chk_ok by lia. cbn [obind]. replace (p + (ls - ls)) with p by lia. apply IH; assumption.
-Qed.
-(** inverted loop region ([end < start]): [loop_end - loop_start] underflows *)
 Lemma wrap_down_inverted_panics : forall fuel p ls le, le < ls -> le <= p -> wrap_down (S fuel) p ls le = Panic Overflow.
 Proof.
   intros fuel p ls le H1 H2. cbn [wrap_down]. destruct (Z.geb_spec p le); [|lia].
   rewrite sub_chk_panic by lia. reflexivity.
-Qed.
-Lemma wrap_up_le_inverted_panics : forall fuel p ls le, le < ls -> p <= ls -> wrap_up_le (S fuel) p ls le = Panic Overflow.
-Proof.
-  intros fuel p ls le H1 H2. cbn [wrap_up_le]. destruct (Z.leb_spec p ls); [|lia].
-  rewrite sub_chk_panic by lia. reflexivity.
-Qed.
-
-Lemma increment_empty_region_hangs : forall fuel p ls N,
-  0 <= p -> p + 1 <= u64_max -> ls <= p + 1 ->
-  increment_position fuel {| t_pos := p; t_loop := Some (ls, ls); t_playing := true |} N = Hang.
-Proof.
-  intros fuel p ls N H0 H1 H2. unfold increment_position. cbn [t_pos t_loop t_playing negb].
-  rewrite add_chk_ok by lia. cbn [obind]. rewrite wrap_down_empty_hangs by lia. reflexivity.
-Qed.
-Lemma increment_inverted_region_panics : forall fuel p ls le N,
-  0 <= p -> p + 1 <= u64_max -> le < ls -> le <= p + 1 ->
-  increment_position (S fuel) {| t_pos := p; t_loop := Some (ls, le); t_playing := true |} N = Panic Overflow.
-Proof.
-  intros fuel p ls le N H0 H1 H2 H3. unfold increment_position. cbn [t_pos t_loop t_playing negb].
-  rewrite add_chk_ok by lia. cbn [obind]. rewrite wrap_down_inverted_panics by lia. reflexivity.
-Qed.
-Lemma decrement_empty_region_hangs : forall fuel p ls,
-  0 <= p -> p <= ls -> ls <= u64_max ->
-  decrement_position fuel {| t_pos := p; t_loop := Some (ls, ls); t_playing := true |} = Hang.
-Proof.
-  intros fuel p ls H0 H1 H2. unfold decrement_position. cbn [t_pos t_loop t_playing negb].
-  rewrite wrap_up_le_empty_hangs by lia. reflexivity.
-Qed.
-Lemma decrement_inverted_region_panics : forall fuel p ls le,
-  le < ls -> p <= ls ->
-  decrement_position (S fuel) {| t_pos := p; t_loop := Some (ls, le); t_playing := true |} = Panic Overflow.
-Proof.
-  intros fuel p ls le H1 H2. unfold decrement_position. cbn [t_pos t_loop t_playing negb].
-  rewrite wrap_up_le_inverted_panics by lia. reflexivity.
-Qed.
-(** reversed with [start >= length] (or an empty sound): [num_frames - 1 - start] underflows *)
-Lemma transport_new_reverse_beyond_end_panics : forall start lr N,
-  0 <= N -> N <= start -> transport_new start lr true N = Panic Overflow.
-Proof.
-  intros start lr N H0 H1. unfold transport_new. destruct (Z.eq_dec N 0) as [->|Hn].
-  - reflexivity.
-  - rewrite (sub_chk_ok N 1) by lia. cbn [obind]. rewrite sub_chk_panic by lia. reflexivity.
 Qed.
